@@ -133,6 +133,8 @@ pub struct Walk {
     loaded: Option<BTreeMap<String, (Vec<ColDef>, Vec<Vec<V>>)>>,
     loaded_pt: Option<usize>,
     pending_sig: Option<Snap>,
+    catalog_edited: bool,
+    refused_create_since_snap: bool,
     loaded_summary: Option<BTreeMap<u32, decode::PVal>>,
     loaded_streams: BTreeMap<String, String>,
     is_foreign: bool,
@@ -144,7 +146,7 @@ impl Walk {
             out: vec![], checked: 0, nontrivial: HashSet::new(), db: RefDb::default(), db_known: false,
             last_snap: None, ok_mutation_since_snap: false, before_reopen: None, after_reopen: false,
             streams: BTreeMap::new(), streams_known: false, summary: BTreeMap::new(), summary_known: false,
-            session_ok: false, loaded: None, loaded_pt: None, pending_sig: None, loaded_summary: None, loaded_streams: BTreeMap::new(), is_foreign: false,
+            session_ok: false, loaded: None, loaded_pt: None, pending_sig: None, catalog_edited: false, refused_create_since_snap: false, loaded_summary: None, loaded_streams: BTreeMap::new(), is_foreign: false,
         }
     }
     fn fail(&mut self, tags: &[&'static str], i: usize, q: &str, r: &str, why: String) {
@@ -173,6 +175,7 @@ impl Walk {
         }
         match t[0] {
             "new" => {
+                self.catalog_edited = false;
                 self.is_foreign = false;
                 self.loaded = None;
                 self.db = RefDb::default();
@@ -193,6 +196,7 @@ impl Walk {
                 }
             }
             "load" => {
+                self.catalog_edited = false;
                 self.db = RefDb::default();
                 self.db_known = false;
                 self.session_ok = r == "ok";
@@ -245,7 +249,12 @@ impl Walk {
                     self.db.tables.insert(name.clone(), RefTable { cols, rows: vec![] });
                     self.ok_mutation_since_snap = true;
                     self.nontrivial.insert(format!("create {}", q.len()));
-                } else if want == Some(true) {
+                } else {
+                    self.refused_create_since_snap = true;
+                }
+                if r != "ok" && want == Some(true) && !self.catalog_edited {
+                    // (after direct edits of the catalog tables a definition may collide with rows
+                    // already there: refusing it is right, and must leave nothing behind - C04)
                     self.fail(&["C06", "C20"], i, q, r, "a valid table definition within all limits was refused".into());
                 }
             }
@@ -263,6 +272,16 @@ impl Walk {
             }
             "insert" | "update" | "delete" => {
                 let name = str_of_hex(t[1]).unwrap();
+                if ["_Tables", "_Columns", "_Validation"].contains(&name.as_str()) {
+                    // a direct edit of a catalog table: the relational reference does not follow
+                    // these; the snapshot comparisons (C01, C04) go on
+                    if r == "ok" {
+                        self.ok_mutation_since_snap = true;
+                        self.catalog_edited = true;
+                        self.db_known = false;
+                    }
+                    return;
+                }
                 if !self.db_known {
                     if r == "ok" {
                         self.ok_mutation_since_snap = true;
@@ -312,7 +331,8 @@ impl Walk {
                 }
                 let (sel, _) = Sel::parse(&t[1..]).unwrap();
                 let is_join = !matches!(sel.from, Q::Table(_));
-                let tags: &[&'static str] = if is_join { &["C12"] } else { &["C03", "C12"] };
+                // (C13: conditions are expressions; which rows a query keeps is their truth value)
+                let tags: &[&'static str] = if is_join { &["C12", "C13"] } else { &["C03", "C12", "C13"] };
                 match sel.eval(&self.db) {
                     Err(kind) => {
                         if *r != format!("err {kind}") {
@@ -438,7 +458,10 @@ impl Walk {
             }
             "reopen" => {
                 if r != "ok" {
-                    self.fail(&["C01", "C20", "C08"], i, q, r, "the saved package does not reopen (the library cannot decode the file it wrote)".into());
+                    // (a catalog the session itself edited by hand may well describe no valid database)
+                    if !self.catalog_edited {
+                        self.fail(&["C01", "C20", "C08"], i, q, r, "the saved package does not reopen (the library cannot decode the file it wrote)".into());
+                    }
                     self.session_ok = false;
                 } else {
                     // only a snapshot taken right before closing (no successful change since) says
@@ -495,6 +518,15 @@ impl Walk {
                             break;
                         }
                     }
+                }
+                self.nontrivial.insert(q.to_string());
+            }
+            "@refcount_saturation" => {
+                let n: usize = t[1].parse().unwrap_or(0);
+                if r.contains("panic") {
+                    self.fail(&["C01", "C08", "C09"], i, q, r, "filling the reference count of one string panics".into());
+                } else if !r.contains("same=1") || !r.contains(&format!("fill={n}/{n}")) || !r.contains("create:ok") {
+                    self.fail(&["C01", "C06", "C08"], i, q, r, format!("{n} cells share one text, then a table and column of that name are created: after save and reopen the table's definition and the {n} cells must read as before"));
                 }
                 self.nontrivial.insert(q.to_string());
             }
@@ -582,7 +614,9 @@ impl Walk {
             // C04: nothing succeeded since the last snapshot => nothing changed
             if !self.ok_mutation_since_snap && *last != snap {
                 let why = describe_diff(last, &snap);
-                self.fail(&["C04"], i, q, r, format!("only rejected calls since the previous snapshot, yet {why}"));
+                // (a refused create_table is also a matter of C20: limits are refused with nothing changed)
+                let tags: &[&'static str] = if self.refused_create_since_snap { &["C04", "C20"] } else { &["C04"] };
+                self.fail(tags, i, q, r, format!("only rejected calls since the previous snapshot, yet {why}"));
             }
         }
         if let Some(exp) = self.loaded.take() {
@@ -730,7 +764,10 @@ impl Walk {
             }
         }
         // C08 (API view of the catalog): _Tables and _Columns list exactly the existing tables
-        if let (Some(tt), Some(ct)) = (snap.tables.get("_Tables"), snap.tables.get("_Columns")) {
+        // (unless the session itself edited the catalog tables directly)
+        let cat = |n: &str| if self.catalog_edited { None } else { snap.tables.get(n) };
+        let (cat_t, cat_c, cat_v) = (cat("_Tables"), cat("_Columns"), cat("_Validation"));
+        if let (Some(tt), Some(ct)) = (cat_t, cat_c) {
             if let (Ok(trows), Ok(crows)) = (&tt.rows, &ct.rows) {
                 let listed: Vec<String> = trows.iter().filter_map(|r| match &r[0] { V::Str(s) => Some(s.clone()), _ => None }).collect();
                 let mut have: Vec<String> = snap.tables.keys().filter(|n| *n != "_Tables" && *n != "_Columns").cloned().collect();
@@ -765,7 +802,7 @@ impl Walk {
                 }
             }
         }
-        if let Some(vt) = snap.tables.get("_Validation") {
+        if let Some(vt) = cat_v {
             if let Ok(vrows) = &vt.rows {
                 for row in vrows {
                     if let V::Str(tn) = &row[0] {
@@ -801,11 +838,12 @@ impl Walk {
             let have = snap.summary_field("langs").unwrap_or_default();
             let want = self.summary.get("langs").cloned().unwrap_or_default();
             if have != want {
-                self.fail(&["C10"], i, q, r, format!("summary languages are {have:?}, expected {want:?}"));
+                self.fail(&["C10", "C17"], i, q, r, format!("summary languages are {have:?}, expected {want:?}"));
             }
         }
         self.last_snap = Some((i, snap));
         self.ok_mutation_since_snap = false;
+        self.refused_create_since_snap = false;
     }
 
     /// independent parse of the saved summary stream (OLE property set layout only)
